@@ -79,16 +79,17 @@ Arith ==
 Division ==
   /\ InDomain("SIntQuo", <<A, Bz>>) = (b # 0 /\ ~(a = Lo /\ b = -1))
   /\ InDomain("SIntQuo", <<A, Bz>>) =>
-       /\ I2("SIntQuo", A, Bz) = NQuo(a, b) /\ I2("SIntRem", A, Bz) = NRem(a, b)
-       /\ I2("SIntMod", A, Bz) = NRem(a, b)
-       /\ Def("SIntDivide", <<A, Bz>>) = <<D2("SIntQuo", A, Bz), D2("SIntRem", A, Bz)>>
-       /\ a = b * I2("SIntQuo", A, Bz) + I2("SIntRem", A, Bz)
-       /\ NAbs(I2("SIntRem", A, Bz)) < NAbs(b)
-       /\ (I2("SIntRem", A, Bz) = 0 \/ NSgn(I2("SIntRem", A, Bz)) = NSgn(a))
+       LET dv == Def("SIntDivide", <<A, Bz>>)
+           q  == ToInt(dv[1])
+           r  == ToInt(dv[2])
+       IN /\ q = NQuo(a, b) /\ r = NRem(a, b)
+          /\ D2("SIntQuo", A, Bz) = dv[1] /\ D2("SIntRem", A, Bz) = dv[2] /\ D2("SIntMod", A, Bz) = dv[2]
+          /\ a = b * q + r /\ NAbs(r) < NAbs(b) /\ (r = 0 \/ NSgn(r) = NSgn(a))
+          /\ ResultTyped("SIntDivide", <<A, Bz>>)
   /\ b # 0 =>
-       /\ I2("BIntQuo", A, Bz) = NQuo(a, b) /\ I2("BIntRem", A, Bz) = NRem(a, b)
-       /\ I2("BIntMod", A, Bz) = NRem(a, b)
-       /\ Def("BIntDivide", <<A, Bz>>) = <<D2("BIntQuo", A, Bz), D2("BIntRem", A, Bz)>>
+       LET dv == Def("BIntDivide", <<A, Bz>>)
+       IN /\ ToInt(dv[1]) = NQuo(a, b) /\ ToInt(dv[2]) = NRem(a, b)
+          /\ D2("BIntQuo", A, Bz) = dv[1] /\ D2("BIntRem", A, Bz) = dv[2] /\ D2("BIntMod", A, Bz) = dv[2]
 
 Modular ==
   \A n \in {1, 2, 3, 7, 100, Hi} :
@@ -174,10 +175,10 @@ Words ==
               /\ ToInt(dd[3]) < NU(b) /\ ToInt(dd[1]) = 0)
 
 Powers ==
-  \A e \in 0..4 :
+  \A e \in {0, 1, 2, 3, 4} :
     LET E == FromInt(e) IN
     /\ (NAbs(a) <= 30 => I2("BIntSIPower", A, E) = a ^ e /\ I2("BIntBIPower", A, E) = a ^ e)
-    /\ (NAbs(a) <= 30 /\ b # 0 =>
+    /\ (NAbs(a) <= 12 /\ b # 0 /\ NAbs(b) <= 20 =>
           ToInt(D3("BIntPowerMod", A, E, Bz)) = NRem(a ^ e, b))
 
 Typing ==
@@ -185,7 +186,6 @@ Typing ==
                "SIntEQ", "SIntLT", "BIntPlus", "BIntTimes", "BIntGcd"} : ResultTyped(o, <<A, Bz>>)
   /\ \A o \in {"SIntNegate", "SIntNot", "SIntPrev", "SIntNext", "SIntLength", "SIntIsOdd", "SIntToBInt"} :
         ResultTyped(o, <<A>>)
-  /\ (InDomain("SIntQuo", <<A, Bz>>) => \A o \in {"SIntQuo", "SIntRem", "SIntMod", "SIntDivide"} : ResultTyped(o, <<A, Bz>>))
   /\ Len(Table) = Cardinality(OpNames)                       \* names are unique
   /\ DefinedOps \subseteq OpNames
 
